@@ -102,3 +102,39 @@ theorem C12_gen_tick_power_sem (n : Node) : genTickPower n = (tickDown (tickUp n
   prog_equiv [genTickPower, genStart_eq, genShut_eq, genOnB_eq, genOffB_eq, tickPowerProg, tickDown, tickUp]
 
 end Primaite.Power
+
+/-! ### `all(…)` / `any(…)` over the interfaces: when stopping early is harmless, and when it is not (seeded C12-g) -/
+namespace Primaite.Power
+
+/-- if every interface answers True to `enable()` (NICs and router interfaces always do; a switch port / access point only
+when it came up), `all(i.enable() for i in …)` never stops early: the interfaces afterwards are the plain loop's, the answer True -/
+theorem C12_all_enable_is_loop_when_all_answer (sc on : Bool) (cs : List Nic)
+    (h : ∀ c ∈ cs, c.enableAnswer on = true) :
+    nicsQuant .all sc on .enable cs = (cs.map (Nic.enable on), true) := by
+  induction cs with
+  | nil => rfl
+  | cons c cs ih =>
+    have hc : c.enableAnswer on = true := h c (List.mem_cons_self ..)
+    have ih' := ih (fun d hd => h d (List.mem_cons_of_mem _ hd))
+    simp [nicsQuant, nicCall, hc, ih']
+
+/-- hence on a node whose interfaces are all NICs / router interfaces (hosts, routers, firewalls) the helper of seeded C12-g
+is the plain loop -/
+theorem C12_all_enable_is_loop_on_ip_interfaces (sc on : Bool) (cs : List Nic) (h : ∀ c ∈ cs, c.kind = .ipWired) :
+    nicsQuant .all sc on .enable cs = (cs.map (Nic.enable on), true) :=
+  C12_all_enable_is_loop_when_all_answer sc on cs (fun c hc => by simp [Nic.enableAnswer, h c hc])
+
+/-- **but not on a switch**: three ports, the middle one with nothing plugged in; `all(…)` over a generator stops there and the
+third port — plugged in, on a node that is ON — stays down, where the plain loop brings it up (the witness of C12-g) -/
+theorem C12_short_circuit_counterexample :
+    let ports : List Nic := [⟨false, true, .wired⟩, ⟨false, false, .wired⟩, ⟨false, true, .wired⟩]
+    (nicsQuant .all true true .enable ports).1.map (·.enabled) = [true, false, false] ∧
+    (ports.map (Nic.enable true)).map (·.enabled) = [true, false, true] ∧
+    (nicsQuant .all false true .enable ports).1.map (·.enabled) = [true, false, true] := by decide
+
+/-- and `any(…)` over a generator stops at the first interface that came up, on every node class -/
+theorem C12_any_short_circuit_counterexample :
+    let ports : List Nic := [⟨false, true, .ipWired⟩, ⟨false, true, .ipWired⟩]
+    (nicsQuant .any true true .enable ports).1.map (·.enabled) = [true, false] := by decide
+
+end Primaite.Power
